@@ -822,6 +822,18 @@ def table_attr(it, t, name):
                 return Series(t, col)
             return default
         return nat(get)
+    if name == "set_index":
+        def set_index(it, idx, inplace=False, **k):
+            # the row labels change, the rows (positions) do not
+            a = idx.arr() if hasattr(idx, "arr") else idx
+            new = a.e if isinstance(a, Arr) and a.space is t.space else Opaque("new index")
+            if inplace:
+                t.index_e = new
+                t.writes.append(("<index>", "set_index"))
+                return None
+            t2 = Table(t.name + "'reindexed", t.space, dict(t.cols), new, dict(t.optional))
+            return t2
+        return Native(set_index, name="set_index", pure=False)
     if name == "merge":
         return nat(lambda it, right, **k: tabletheory.merge(it, t, right, **k))
     if name == "query":
